@@ -25,14 +25,14 @@ TV_NOTE = {
  "C06": " Nf.bodiesEquiv_sound also validates the emitted raw_value / new_with_raw_value bodies against the model's.",
  "C08": " TV.getter_validated (result through T::new_with_raw_value as a symbolic call) / setter_validated (value.raw_value() as a symbolic input) for emitted bodies of custom-typed fields.",
  "C11": " TV.setter_validated: an emitted setter body the normaliser accepts keeps the register below 2^N.",
- "C12": " TV.setter_validated: every step of a history may use any emitted body the normaliser accepts.",
+ "C12": " TV.setter_validated: every step of a history may use any emitted body the normaliser accepts. C12.readback_after_history / Prog.accepted_history_readback: after any legal history the field written last reads back the written value (the run executes exactly that after every random history).",
  "C13": " TV.setter_validated: the with_ calls of the chain may use any emitted body the normaliser accepts.",
  "C16": " TV.validated_profile_independent / *_validated_oob: a validated emitted body gives the same result with overflow checks on and off and panics exactly on an out-of-range index.",
 }
 
 T = {
  "C01": ("Bb.C01.getter_contiguous: for every well-formed base (u8..u128, u1..u127), every accepted contiguous scalar field, every raw value and both profiles the generated getter evaluates to `field raw lo n` presented as the field type; getter_bits / getter_ignores_other_bits give the bit-level reading (bit k weighs 2^k, nothing outside the range matters). Unbounded in widths, positions and values. Prog.accepted_getter: the same for every field of every accepted declaration (hypotheses: accepted, in-range index, no bit named twice).", "§6 C01"),
- "C02": ("Bb.C02.with_contiguous / with_bits / read_back / set_eq_with: with_ (and set_, the same expression) yields the register whose field positions hold v and whose other positions hold the receiver's bits; reading back gives v; full-width fields included (eval_setterNewRawValue covers all seven setter templates). Prog.accepted_setter: declaration-level form.", "§6 C02"),
+ "C02": ("Bb.C02.with_contiguous / with_bits / read_back / set_eq_with: with_ (and set_, the same expression) yields the register whose field positions hold v and whose other positions hold the receiver's bits; reading back gives v; full-width fields included (eval_setterNewRawValue covers all seven setter templates). Prog.accepted_setter: declaration-level form; Prog.accepted_history_readback: read-back holds for every reachable receiver, not only a freshly wrapped raw value.", "§6 C02"),
  "C03": ("Bb.C03.array_get / array_with / array_isolation / array_get_oob / array_with_oob: element i is read and written at offset i*stride, a write leaves every position outside element i alone (so other elements and fields), and an index >= K panics in getter, with_ and set_ under both profiles before anything else is evaluated.", "§6 C03"),
  "C04": ("Bb.C04.list_get (any list, Σlen ≤ W), gather_bits, list_with / scatter_inside / scatter_outside / scatter_gather (pairwise disjoint lists, as the property states): declaration-order concatenation on read, exact scatter on write, round trip; arrays of lists with explicit stride through the element offset.", "§6 C04"),
  "C05": ("Bb.C05.signed_get / signed_with / no_sign_leak / signed_read_back / toInt_injective: an iN field reads as the iN with the field's N-bit pattern, writing any pattern (negative values included) stores exactly it and changes no other bit of the W-bit storage; plain, array and non-contiguous alike.", "§6 C05"),
